@@ -54,6 +54,25 @@ impl<E: Endianness, WR, RP: ReadParams> BitReader<E, WR, RP> {
     }
 }
 
+/// Verification hooks (compiled only with `--cfg dsi_bitstream_verif`): build a
+/// reader from, and inspect, its private fields.
+#[cfg(dsi_bitstream_verif)]
+impl<E: Endianness, WR, RP: ReadParams> BitReader<E, WR, RP> {
+    #[doc(hidden)]
+    pub fn verif_from_parts(data: WR, bit_index: u64) -> Self {
+        Self {
+            data,
+            bit_index,
+            _marker: core::marker::PhantomData,
+        }
+    }
+
+    #[doc(hidden)]
+    pub fn verif_parts(&self) -> (&WR, u64) {
+        (&self.data, self.bit_index)
+    }
+}
+
 impl<
         E: Error + Send + Sync + 'static,
         WR: WordRead<Error = E, Word = u64> + WordSeek<Error = E>,
